@@ -1708,6 +1708,22 @@ class Parallel(Logger):
             # the rest of the function does not call `_terminate_and_reset`
             # in finally.
             if dispatch_thread_id != threading.get_ident():
+                detach_generator_exit = True
+                _parallel = self
+
+                class _GeneratorExitThread(threading.Thread):
+                    def run(self):
+                        _parallel._abort()
+                        try:
+                            if _parallel.return_generator:
+                                _parallel._warn_exit_early()
+                        finally:
+                            _parallel._terminate_and_reset()
+
+                _GeneratorExitThread(name="GeneratorExitThread").start()
+
+                # Warn once the clean-up has been handed over: if warnings are
+                # turned into errors, the abort must not be skipped.
                 warnings.warn(
                     "A generator produced by joblib.Parallel has been "
                     "gc'ed in an unexpected thread. This behavior should "
@@ -1716,18 +1732,6 @@ class Parallel(Logger):
                     "https://github.com/joblib/joblib/issues so it can "
                     "be investigated."
                 )
-
-                detach_generator_exit = True
-                _parallel = self
-
-                class _GeneratorExitThread(threading.Thread):
-                    def run(self):
-                        _parallel._abort()
-                        if _parallel.return_generator:
-                            _parallel._warn_exit_early()
-                        _parallel._terminate_and_reset()
-
-                _GeneratorExitThread(name="GeneratorExitThread").start()
                 return
 
             # Otherwise, we are in the thread that started the dispatch: we can
